@@ -1,9 +1,12 @@
 #!/bin/bash
-# re-run every claimed property's quick check on the current tree (rewrites evidence/*.json); prints one line each
+# re-run every claimed property's quick check on the current tree (rewrites evidence/*.json); prints one line each.
+# Four lanes in parallel, each with its own work directory (VERIF_WORK); /repo must not be touched while this runs.
 cd /verif
-for p in $(python3 -c "import json; print(' '.join(sorted(json.load(open('props.json'))['properties'])))"); do
-  ./check $p --tier quick 2>&1 | tail -n 1
-done
+props=$(python3 -c "import json; print(' '.join(sorted(json.load(open('props.json'))['properties'])))")
+lane() { for p in "$@"; do VERIF_WORK=/verif/.work/lane-$1 ./check $p --tier quick 2>&1 | tail -n 1; done; }
+i=0; declare -a L0 L1 L2 L3
+for p in ${1:-$props}; do eval "L$((i%4))+=($p)"; i=$((i+1)); done
+lane "${L0[@]}" & lane "${L1[@]}" & lane "${L2[@]}" & lane "${L3[@]}" & wait
 python3-vt - <<'PY'
 import json,jsonschema,glob
 s=json.load(open('/root/.vp/EVIDENCE.schema.json'))
